@@ -20,6 +20,7 @@ func zzC17EncryptVsLock(bound int, kt CryptoKeyType) {
 	zzMust(w.view(func(ns walletdb.ReadBucket) error { return w.mgr.Unlock(ns, zzPrvPass) }))
 	pt := verifrt.Bytes("plaintext", 3)
 	verifrt.PreemptionBound(bound)
+	verifrt.YieldOnUnlock(true)
 	var ct []byte
 	var encErr error
 	done := make(chan struct{})
@@ -48,6 +49,6 @@ func zzC17EncryptVsLock(bound int, kt CryptoKeyType) {
 	verifrt.Reach("c17-end")
 }
 
-func ZzC17EncryptVsLockB1()       { zzC17EncryptVsLock(1, CKTPrivate) }
 func ZzC17EncryptVsLockB2()       { zzC17EncryptVsLock(2, CKTPrivate) }
-func ZzC17EncryptPublicVsLockB1() { zzC17EncryptVsLock(1, CKTPublic) }
+func ZzC17EncryptVsLockB4()       { zzC17EncryptVsLock(4, CKTPrivate) }
+func ZzC17EncryptPublicVsLockB2() { zzC17EncryptVsLock(2, CKTPublic) }
